@@ -236,6 +236,17 @@ func (c *FnCtx) evalExpr(st *State, e ast.Expr) Term {
 		}
 		panic(unsup("index of %v", bt))
 	case *ast.SliceExpr:
+		if at, ok := c.typeOf(x.X).Underlying().(*types.Array); ok && x.Low == nil && x.High == nil {
+			// a[:] of an array: a view of all its elements; the contents are not tracked (arrays are opaque values),
+			// the length is the array's
+			rt := c.typeOf(x)
+			v := c.fresh(st, "arrview", rt)
+			if v.Sort.Kind == KSlice {
+				st.assume(sEq(sliceLen(v), fmt.Sprint(at.Len())))
+				c.e.trusted["slice of an array: contents not modelled, length exact, in "+shortFn(c.fi.Key)] = true
+				return v
+			}
+		}
 		s := c.evalExpr(st, x.X)
 		if s.Sort.Kind != KSlice {
 			panic(unsup("slice expression on %v", c.typeOf(x.X)))
